@@ -10,6 +10,7 @@ and every method.
 import GlotaranProofs.Lemmas.C09
 import GlotaranProofs.Lemmas.C09C02
 import GlotaranProofs.Lemmas.C09Result
+import GlotaranProofs.Lemmas.C09Gen
 import GlotaranProofs.Lemmas.C03
 namespace Glotaran.C09
 
@@ -934,5 +935,281 @@ example : ∀ ds, exampleGroup.datasets.head? = some ds → ds.globalAxis.Nodup 
   subst h
   decide +kernel
 example : ∀ row ∈ [[1, 5, 6], [1, 3, 6, (10 : Rat)]], row.Nodup := by decide +kernel
+
+/-! ## the functions regenerated from the Python source are the model
+
+`harness/props/_c09_translate.py` translates the source text of `DataProviderLinked.align_index`,
+`create_aligned_global_axes`, `align_data`, `align_dataset_indices`, `align_groups`, `align_weights` on every run into
+`Glotaran.C09.Gen.*` (GlotaranModel/Generated/C09Fns.lean) over the vocabulary of GlotaranModel/C09Py.lean (numpy arrays =
+lists of rationals, dicts = association lists, xarray's outer join = sorted union of the coordinates).  The theorems below
+equate every regenerated function with the model definition the property theorems above are about — for all axes of any
+length and order, all tolerances and the three methods — so an edit of the Python source that changes what a function
+computes breaks the corresponding proof. -/
+
+/-- the regenerated `align_index` is `alignIndex`: difference, side mask on both arrays, `np.abs`, `min() <= tolerance`,
+    `target_axis[argmin]` = the first nearest permitted target -/
+theorem generated_align_index_eq_model (x : Rat) (target : List Rat) (tol : Rat) (m : Method) :
+    Gen.align_index x target tol m = alignIndex x target tol m :=
+  gen_align_index_eq x target tol m
+
+example : Gen.align_index (11/2) [1, 5, 6] 1 .forward = 6 ∧ Gen.align_index (11/2) [6, 1, 5] 1 .backward = 5 ∧
+    Gen.align_index (11/2) [1, 5, 6] 1 .nearest = 5 ∧ Gen.align_index 7 [1, 5, 6] 1 .forward = 7 := by decide +kernel
+
+/-- the regenerated `create_aligned_global_axes` (a loop over the dict of global axes, keys pairwise different as in any
+    dict) is `createAlignedAxes` on the axes in dict order: same aligned axes under the same labels, and
+    `AlignDatasetError` exactly when the model refuses -/
+theorem generated_create_aligned_global_axes_eq_model (ga : Dict (List Rat)) (tol : Rat) (m : Method)
+    (hkeys : (ga.map (·.1)).Nodup) :
+    Gen.create_aligned_global_axes ga tol m =
+      (match createAlignedAxes tol m (ga.map (·.2)) with
+        | none => Except.error PyErr.alignDataset
+        | some al => Except.ok ((ga.map (·.1)).zip al)) :=
+  gen_create_aligned_global_axes_eq ga tol m hkeys
+
+example : Gen.create_aligned_global_axes [("d1", [1, 5, 6]), ("d2", [0, 3, 7, 10])] 1 .nearest =
+    Except.ok [("d1", [1, 5, 6]), ("d2", [1, 3, 6, 10])] := by decide +kernel
+example : Gen.create_aligned_global_axes [("d1", [1, 5, 6]), ("d2", [1/2, 3/2])] 1 .nearest =
+    Except.error PyErr.alignDataset := by decide +kernel
+
+/-- the regenerated `align_dataset_indices` (outer join of `arange(len(axis))` over the aligned axes, `dropna` per aligned
+    point) is the `indices` table of the model: per aligned point the own indices of its members, in dataset order -/
+theorem generated_align_dataset_indices_eq_model (dss : List Dataset) (al : List (List Rat))
+    (hlen : al.length = dss.length) :
+    Gen.align_dataset_indices (alignedAxis al) ((dss.map (·.label)).zip al) = (tablesOf dss al).indices :=
+  gen_align_dataset_indices_eq dss al hlen
+
+/-- the regenerated `align_data` (outer join of the datasets' (weighted) data over the aligned axes along "model", `dropna`
+    per aligned point) gives the model's aligned axis and stacked data: `get_data(label)` = the dataset's columns times its
+    weight (`providerData`, what `DataProvider.__init__` stores), labels pairwise different, every dataset has a data
+    column for each of its aligned points -/
+theorem generated_align_data_eq_model (dss : List Dataset) (al : List (List Rat)) (hlen : al.length = dss.length)
+    (hlab : (dss.map (·.label)).Nodup) (hrows : ∀ p ∈ dss.zip al, p.2.length ≤ p.1.data.length) :
+    Gen.align_data (providerData dss) ((dss.map (·.label)).zip al) = ((tablesOf dss al).axis, (tablesOf dss al).data) :=
+  gen_align_data_eq dss al hlen hlab hrows
+
+/-- the regenerated `align_groups` (outer join of `np.full(len(axis), label)` with fill value `""`, `"".join` per aligned
+    point, first occurrence of a joined label defines the group) gives the model's group labels and group definitions
+    (labels not empty: an empty label is indistinguishable from the fill value) -/
+theorem generated_align_groups_eq_model (dss : List Dataset) (al : List (List Rat)) (hlen : al.length = dss.length)
+    (hne : ∀ ds ∈ dss, ds.label ≠ "") :
+    Gen.align_groups ((dss.map (·.label)).zip al) = ((tablesOf dss al).labels, (tablesOf dss al).defs) :=
+  gen_align_groups_eq dss al hlen hne
+
+-- the repository's test axes, tolerance 1, nearest: d1 (model-axis size 2) and d2 (size 1, weighted by 1/2)
+example : Gen.align_dataset_indices [1, 3, 5, 6, 10] [("d1", [1, 5, 6]), ("d2", [1, 3, 6, 10])] =
+    [[0, 0], [1], [1], [2, 2], [3]] := by decide +kernel
+example : Gen.align_groups [("d1", [1, 5, 6]), ("d2", [1, 3, 6, 10])] =
+    (["d1d2", "d2", "d1", "d1d2", "d2"], [("d1d2", ["d1", "d2"]), ("d2", ["d2"]), ("d1", ["d1"])]) := by decide +kernel
+example : Gen.align_data
+    (providerData [⟨"d1", 2, [1, 5, 6], [[1, 2], [3, 4], [5, 6]], none⟩,
+      ⟨"d2", 1, [0, 3, 7, 10], [[7], [8], [9], [10]], some [[1/2], [1/2], [1/2], [1/2]]⟩])
+    [("d1", [1, 5, 6]), ("d2", [1, 3, 6, 10])] =
+    ([1, 3, 5, 6, 10], [[1, 2, 7/2], [4], [3, 4], [5, 6, 9/2], [5]]) := by decide +kernel
+
+/-- the regenerated `align_weights` — dict of the weighted datasets' weights over their ALIGNED axes, per aligned point the
+    group definition looked up by the joined label, `.sel` of every weighted member at the aligned value, `np.ones` of the
+    model-axis size for the others, `np.concatenate` — is the `weights` table of the model: `self._weight` = the datasets'
+    weights, `self._aligned_global_axis`, `self._aligned_group_labels`, `self._group_definitions` = the model's tables
+    (what the other regenerated functions return), `get_model_axis(label).size` = the model-axis size by label; labels
+    pairwise different and joined group labels unambiguous (the dict `group_definitions` is keyed by them) -/
+theorem generated_align_weights_eq_model (dss : List Dataset) (al : List (List Rat)) (hlen : al.length = dss.length)
+    (hlab : (dss.map (·.label)).Nodup) (hjoin : GroupLabelsUnambiguous dss al) :
+    Gen.align_weights (dss.map (fun ds => (ds.label, ds.weight))) (alignedAxis al) (tablesOf dss al).labels
+        (tablesOf dss al).defs (msizeOf dss) ((dss.map (·.label)).zip al) = (tablesOf dss al).weights := by
+  rw [gen_align_weights_core dss al hlen hlab _ _ (by rw [tablesOf_labels]; simp)]
+  · exact (weights_default_to_ones dss al).1.symm
+  · intro i hi
+    have hv : (alignedAxis al)[i] ∈ alignedAxis al := List.getElem_mem hi
+    have hlabi : (tablesOf dss al).labels.getD i "" = String.join (memberLabels dss al (alignedAxis al)[i]) := by
+      rw [tablesOf_labels]
+      simp [List.getD_eq_getElem?_getD, List.getElem?_eq_getElem hi]
+    rw [hlabi, tablesOf_defs]
+    have hdl : ∀ (d : Dict (List String)) (g : String), dictGetD d g [] = lookupDef d g := by
+      intro d g
+      unfold dictGetD lookupDef
+      cases d.find? (fun e => e.1 == g) <;> rfl
+    rw [hdl, lookupDef_groupDefs, List.nil_append]
+    exact lookupDef_map_first (fun v => String.join (memberLabels dss al v)) (memberLabels dss al)
+      (alignedAxis al) _ hv (fun u hu he => hjoin u hu _ hv he)
+
+-- the repository's test axes again: d2 weighted; the regenerated function returns the model's weight table
+example : Gen.align_weights [("d1", none), ("d2", some [[1/2], [1/4], [1/8], [1/16]])] [1, 3, 5, 6, 10]
+    ["d1d2", "d2", "d1", "d1d2", "d2"] [("d1d2", ["d1", "d2"]), ("d2", ["d2"]), ("d1", ["d1"])]
+    (fun l => if l == "d1" then 2 else 1) [("d1", [1, 5, 6]), ("d2", [1, 3, 6, 10])] =
+    [some [1, 1, 1/2], some [1/4], none, some [1, 1, 1/8], some [1/16]] := by decide +kernel
+
+/-- **The regenerated functions, called in the order of `DataProviderLinked.__init__`, are the model's `provider`**
+    (`create_aligned_global_axes` on the dict of global axes, then `align_data`, `align_dataset_indices`, `align_groups` and
+    `align_weights` fed with each other's results as `__init__` does; the order of the calls is written down here, the five
+    functions are the regenerated ones): the generated pipeline refuses exactly when the model refuses, and otherwise returns
+    exactly the model's tables.  Hypotheses: labels pairwise different and not empty, every dataset has one data column per
+    global-axis point, joined group labels unambiguous. -/
+theorem generated_provider_eq_model (tol : Rat) (m : Method) (dss : List Dataset)
+    (hlab : (dss.map (·.label)).Nodup) (hne : ∀ ds ∈ dss, ds.label ≠ "")
+    (hshape : ∀ ds ∈ dss, ds.data.length = ds.axis.length)
+    (hjoin : ∀ al, createAlignedAxes tol m (dss.map (·.axis)) = some al → GroupLabelsUnambiguous dss al) :
+    match Gen.create_aligned_global_axes (dss.map (fun ds => (ds.label, ds.axis))) tol m with
+    | .error e => e = PyErr.alignDataset ∧ provider tol m dss = none
+    | .ok ga => ∃ t, provider tol m dss = some t ∧
+        Gen.align_data (providerData dss) ga = (t.axis, t.data) ∧
+        Gen.align_dataset_indices t.axis ga = t.indices ∧
+        Gen.align_groups ga = (t.labels, t.defs) ∧
+        Gen.align_weights (dss.map (fun ds => (ds.label, ds.weight))) t.axis t.labels t.defs (msizeOf dss) ga = t.weights := by
+  have hk : ((dss.map (fun ds => (ds.label, ds.axis))).map (·.1)) = dss.map (·.label) := by simp [List.map_map, Function.comp_def]
+  have hv : ((dss.map (fun ds => (ds.label, ds.axis))).map (·.2)) = dss.map (·.axis) := by simp [List.map_map, Function.comp_def]
+  rw [generated_create_aligned_global_axes_eq_model _ tol m (by rw [hk]; exact hlab), hk, hv]
+  cases hal : createAlignedAxes tol m (dss.map (·.axis)) with
+  | none => exact ⟨rfl, by simp [provider, hal]⟩
+  | some al =>
+    have hlen : al.length = dss.length := by
+      simpa using (assignment_is_self_or_nearest_aligned tol m _ al hal).1
+    have hrows : ∀ p ∈ dss.zip al, p.2.length ≤ p.1.data.length := by
+      intro p hp
+      obtain ⟨i, hi, hpi⟩ := List.mem_iff_getElem.mp hp
+      have hid : i < dss.length := by simp at hi; omega
+      have hia : i < al.length := by simp at hi; omega
+      have hl := aligned_rows_same_length tol m _ al hal i
+      rw [List.getElem?_eq_getElem hia, List.getElem?_map, List.getElem?_eq_getElem hid] at hl
+      simp only [Option.map_some, Option.some.injEq] at hl
+      rw [← hpi, List.getElem_zip]
+      simp only
+      rw [hl, hshape _ (List.getElem_mem hid)]
+    refine ⟨tablesOf dss al, by simp [provider, hal], ?_, ?_, ?_, ?_⟩
+    · exact generated_align_data_eq_model dss al hlen hlab hrows
+    · exact generated_align_dataset_indices_eq_model dss al hlen
+    · exact generated_align_groups_eq_model dss al hlen hne
+    · exact generated_align_weights_eq_model dss al hlen hlab (hjoin al hal)
+
+/-- the repository's test axes with labels d1 (model-axis size 2) and d2 (size 1, weights varying along its axis) -/
+def exampleDatasets : List Dataset :=
+  [⟨"d1", 2, [1, 5, 6], [[1, 2], [3, 4], [5, 6]], none⟩,
+   ⟨"d2", 1, [0, 3, 7, 10], [[7], [8], [9], [10]], some [[1/2], [1/4], [1/8], [1/16]]⟩]
+
+-- the hypotheses of generated_provider_eq_model are satisfiable
+example : (exampleDatasets.map (·.label)).Nodup ∧ (∀ ds ∈ exampleDatasets, ds.label ≠ "") ∧
+    (∀ ds ∈ exampleDatasets, ds.data.length = ds.axis.length) := by decide +kernel
+example : ∀ al, createAlignedAxes 1 .nearest (exampleDatasets.map (·.axis)) = some al →
+    GroupLabelsUnambiguous exampleDatasets al := by
+  intro al h
+  have e : createAlignedAxes 1 .nearest (exampleDatasets.map (·.axis)) = some [[1, 5, 6], [1, 3, 6, 10]] := by
+    decide +kernel
+  rw [e] at h
+  cases h
+  intro v hv w hw
+  have ea : alignedAxis [[1, 5, 6], [1, 3, 6, 10]] = [1, 3, 5, 6, 10] := by decide +kernel
+  rw [ea] at hv hw
+  simp only [List.mem_cons, List.not_mem_nil, or_false] at hv hw
+  rcases hv with rfl | rfl | rfl | rfl | rfl <;> rcases hw with rfl | rfl | rfl | rfl | rfl <;> decide +kernel
+
+/-- **Every stacked column carries its own weight.**  At an aligned point `v` where some member is weighted, the stacked
+    weight is defined and the segment that belongs to member `(d, j)` — at the offset of `d` among the members stacked at
+    `v`, model-axis many entries — is dataset `d`'s weight column at ITS OWN index `j` (not at the position of `v` on the
+    aligned axis, not the column of another member), or ones when `d` carries no weight; whatever the tolerance and method
+    that produced `al`, whichever datasets are weighted and however the weights vary along the global axis.  (Hypothesis:
+    the weight columns of the members of `v` have model-axis many entries.) -/
+theorem stacked_weight_is_own_column (dss : List Dataset) (al : List (List Rat)) (v : Rat) (d j i : Nat) (ds : Dataset)
+    (hds : dss[d]? = some ds) (hmem : (d, j) ∈ members al v) (hi : (alignedAxis al)[i]? = some v)
+    (hany : (members al v).any (fun p => (dss.getD p.1 default).weight.isSome) = true)
+    (hsz : ∀ p ∈ members al v, (weightColumn (dss.getD p.1 default) p.2).length = (dss.getD p.1 default).msize) :
+    ∃ W, (tablesOf dss al).weights[i]? = some (some W) ∧
+      (W.drop (blockOffset dss al v d)).take ds.msize =
+        (match ds.weight with
+          | none => List.replicate ds.msize 1
+          | some w => w.getD j []) := by
+  have hgetD : dss.getD d default = ds := by simp [List.getD_eq_getElem?_getD, hds]
+  refine ⟨((members al v).map (fun p => weightColumn (dss.getD p.1 default) p.2)).flatten, ?_, ?_⟩
+  · rw [(weights_default_to_ones dss al).1, List.getElem?_map, hi]
+    simp only [Option.map_some, hany, if_true]
+    rfl
+  · obtain ⟨_, row, hrow, hpos⟩ := (mem_membersFrom v al 0 d j).mp hmem
+    simp only [Nat.sub_zero] at hrow
+    have hfind := find_members al v d row hrow
+    rw [hpos] at hfind
+    obtain ⟨post, hsplit⟩ := split_at_find d _ _ hfind
+    unfold blockOffset
+    generalize (members al v).takeWhile (fun p => p.1 != d) = pre at hsplit
+    have hsz' : ∀ p ∈ pre ++ (d, j) :: post, (weightColumn (dss.getD p.1 default) p.2).length = (dss.getD p.1 default).msize := by
+      rw [← hsplit]; exact hsz
+    rw [hsplit]
+    have hunstack := C03.unstack_stack_sum ((pre ++ (d, j) :: post).map (fun p => weightColumn (dss.getD p.1 default) p.2))
+      pre.length (by simp)
+    have htake : ((pre ++ (d, j) :: post).map (fun p => weightColumn (dss.getD p.1 default) p.2)).take pre.length =
+        pre.map (fun p => weightColumn (dss.getD p.1 default) p.2) := by
+      rw [List.map_append, List.take_left' (by simp)]
+    have hk : ((pre ++ (d, j) :: post).map (fun p => weightColumn (dss.getD p.1 default) p.2))[pre.length]'(by simp) =
+        weightColumn ds j := by
+      simp only [List.map_append, List.map_cons, hgetD]
+      rw [List.getElem_append_right (by simp)]
+      simp
+    have hlen := hsz' (d, j) (by simp)
+    simp only [hgetD] at hlen
+    rw [htake, hk, hlen] at hunstack
+    have hsum : (pre.map (fun p => (dss.getD p.1 default).msize)).sum =
+        ((pre.map (fun p => weightColumn (dss.getD p.1 default) p.2)).map List.length).sum := by
+      rw [List.map_map]
+      congr 1
+      apply List.map_congr_left
+      intro p hp
+      exact (hsz' p (by simp [hp])).symm
+    rw [hsum]
+    exact hunstack
+
+-- d1 (model-axis size 2, no weight) and d2 (size 1, weights 1/2, 1/4, 1/8, 1/16 along its axis) linked at 1 and 6:
+-- at aligned point 6 (position 3) d2 contributes its weight at its OWN index 2, i.e. 1/8, after d1's two ones
+example : (tablesOf [⟨"d1", 2, [1, 5, 6], [[1, 2], [3, 4], [5, 6]], none⟩,
+      ⟨"d2", 1, [0, 3, 7, 10], [[7], [8], [9], [10]], some [[1/2], [1/4], [1/8], [1/16]]⟩] [[1, 5, 6], [1, 3, 6, 10]]).weights
+    = [some [1, 1, 1/2], some [1/4], none, some [1, 1, 1/8], some [1/16]] := by decide +kernel
+example : (1, 2) ∈ [(0, 2), ((1 : Nat), (2 : Nat))] ∧ members [[1, 5, 6], [1, 3, 6, 10]] 6 = [(0, 2), (1, 2)] := by decide +kernel
+
+/-! ## inputs are never modified -/
+
+/-- **The alignment leaves its inputs unchanged**, on the model with explicit array identity (`Store`, references):
+    running `create_aligned_global_axes` on the references of the datasets' global-axis arrays (the coordinate arrays of the
+    input datasets themselves — xarray hands out writable views) refuses exactly when the value-level model refuses, and
+    otherwise (1) every array that existed before — in particular every input array — still has its contents, (2) the
+    arrays handed out hold exactly the aligned axes of the value-level model `createAlignedAxes`, (3) the aligned axis of the
+    FIRST dataset is that dataset's own coordinate array (an alias: writing into it would change the input dataset), and
+    (4) every other aligned axis is a new object that aliases no input. -/
+theorem alignment_leaves_inputs_unchanged (tol : Rat) (m : Method) (s : Store) (refs : List Nat)
+    (hrefs : ∀ r ∈ refs, r < s.length) :
+    (createAlignedAxesRef tol m s refs = none ↔ createAlignedAxes tol m (refs.map s.read) = none) ∧
+    ∀ s' outs, createAlignedAxesRef tol m s refs = some (s', outs) →
+      (∀ r, r < s.length → s'.read r = s.read r) ∧
+      createAlignedAxes tol m (refs.map s.read) = some (outs.map s'.read) ∧
+      outs.head? = refs.head? ∧
+      ∀ r ∈ outs.tail, s.length ≤ r := by
+  unfold createAlignedAxesRef createAlignedAxes
+  cases refs with
+  | nil =>
+    refine ⟨by simp [alignLoopRef, alignLoop], ?_⟩
+    intro s' outs h
+    simp only [alignLoopRef, Option.some.injEq, Prod.mk.injEq] at h
+    obtain ⟨rfl, rfl⟩ := h
+    simp [alignLoop]
+  | cons r rest =>
+    have hr : r < s.length := hrefs r (by simp)
+    obtain ⟨hn, hs⟩ := alignLoopRef_spec tol m rest s r hr (fun q hq => hrefs q (by simp [hq]))
+    simp only [alignLoopRef, List.map_cons, alignLoop]
+    constructor
+    · rw [Option.map_eq_none_iff, Option.map_eq_none_iff]
+      exact hn
+    · intro s' outs h
+      rw [Option.map_eq_some_iff] at h
+      obtain ⟨⟨s'', outs'⟩, hrec, heq⟩ := h
+      simp only [Prod.mk.injEq] at heq
+      obtain ⟨rfl, rfl⟩ := heq
+      obtain ⟨⟨extra, hex⟩, hloop, hfresh⟩ := hs s'' outs' hrec
+      refine ⟨?_, ?_, rfl, hfresh⟩
+      · intro q hq
+        rw [hex]
+        exact read_append s extra q hq
+      · rw [hloop, hex]
+        simp [read_append s extra r hr]
+
+-- two datasets: the store holds their coordinate arrays [1,5,6] (ref 0) and [0,3,7,10] (ref 1); tolerance 1, nearest.
+-- The first aligned axis is ref 0 itself, the second a new array (ref 2) holding [1,3,6,10]; refs 0 and 1 keep their contents
+example : createAlignedAxesRef 1 .nearest [[1, 5, 6], [0, 3, 7, 10]] [0, 1] =
+    some ([[1, 5, 6], [0, 3, 7, 10], [1, 3, 6, 10], [1, 3, 5, 6, 10]], [0, 2]) := by decide +kernel
+example : createAlignedAxesRef 1 .nearest [[1, 5, 6], [1/2, 3/2]] [0, 1] = none := by decide +kernel
 
 end Glotaran.C09
